@@ -22,15 +22,21 @@ groups = {"renders": ["injectify_spec", "transpose_spec", "injectifyTranspose_sp
           "color2": ["coloringOrdered_bounds", "coloringOrdered_proper_scanned", "coloringOrdered_colors_contiguous",
                      "partition_transpose_roundtrip"],
           "mask": ["walkM_spec", "walk_is_walkM", "walkTag_narrow_fails", "walkTag_wide_ok"],
+          "perms3": ["identity_ctor_spec", "swap_ctor_spec", "invSwap_ctor_is_inverse", "invPerm_ctor_spec"],
+          "wf": ["render_wf", "renderComposite_wf", "permuted_wf", "permuteIndices_wf", "partitionGraph_wf", "dynGraph_wf"],
+          "cmuniq": ["cm_root_unique", "cm_chain_unique", "cm_components_unique", "cm_ordering_unique"],
           "blk": ["blocked_apply_spec", "indexSetPermute_is_graph_permuted"],
           "perms2": ["inverse_inverse", "concat_inverse", "self_concat", "self_concat_aliased", "random_ctor_bijection", "graph_permuted_spec"]}
 # lemma whose name differs from the property theorem (old signature kept for other properties' imports)
 ALIAS = {"coloring_bounds": "coloring_bounds_free"}
 HYP_NOTES = """Remaining hypotheses of the C19 theorems and why they stay (everything else was removed or turned into a conclusion):
-* `g.wf = true` (all image indices < `nImg`): class invariant of `Adjacency::Graph` that no constructor checks (Copy-Array /
-  Copy-Vector copy what they get); the kernels index `idx_mask[*it]`, `_domain_ptr[*it + 1]`, `image_ptr[*it]` with the
-  indices, so without it the C++ is undefined behaviour. `permuteIndices_spec` needs no hypothesis: an out-of-range index is
-  part of its guard (`_perm_pos.at` throws).
+* `g.wf = true` (all image indices < `nImg`): class invariant of `Adjacency::Graph`. It is ESTABLISHED by every operation
+  of the model that produces a graph (`render_wf`, `renderComposite_wf`, `permuted_wf`, `permuteIndices_wf`,
+  `partitionGraph_wf`, `dynGraph_wf`, `C19L.walk.compose_wf`), so it only has to hold for graphs that enter through the
+  Copy-Array / Copy-Vector constructors, which copy what they get without any assertion: there it is a caller obligation
+  (the kernels index `idx_mask[*it]`, `_domain_ptr[*it + 1]`, `image_ptr[*it]` with the indices; undefined behaviour
+  otherwise). The driver EVALUATES `g.wf` on every input graph (an ill-formed one is rejected as `BAD-OP`), so every
+  model output compared with the implementation is covered by the theorems. `permuteIndices_spec` needs no hypothesis.
 * `g.nImg = g.nDom`: `Coloring(graph)` and `CuthillMcKee::compute` take a node-to-node graph (both index node arrays with
   image indices).
 * `hsym` (`coloring_proper`, `coloringOrdered_proper`): coloring.hpp documents "adjacent nodes do not have the same color"
@@ -43,6 +49,9 @@ HYP_NOTES = """Remaining hypotheses of the C19 theorems and why they stay (every
   documented as a permutation array.
 * `A.Lawful`, `A.toGraph.wf`: hold for every adjactor the driver builds (`adjactor_ofGraph_spec`,
   `adjactor_composite_spec`, `C19L.walk.compose_wf`).
+* Permutation constructor types: identity `identity_ctor_spec`, perm `swap_perm_agree` + `swapFromPerm_terminates`, swap
+  `swap_ctor_spec`, inv_perm `invPerm_ctor_spec` + `invPerm_spec`, inv_swap `invSwap_ctor_is_inverse` (inverse of the swap
+  constructor for EVERY swap array), random `random_ctor_bijection`; `none` leaves both arrays uninitialised (nothing to state).
 * `hn : 0 < g.nDom` (Cuthill-McKee): `cm_empty_aborts` shows the other case aborts (`Permutation(0)`); logically implied by
   `compute = some _` where that is a hypothesis.
 * sortedness of `DynGraph` rows: `std::set` invariant, established by `empty` and preserved by every operation
